@@ -17,7 +17,7 @@ func GenC01(r *RNG) *SrvPlan {
 	p.Peer = PeerCfg{InitialWindow: Pick(r, int64(-1), 1<<20, 1<<24), MaxFrameSize: Pick(r, int64(-1), 16384, 65536), HeaderTableSize: Pick(r, int64(-1), 4096, 256, 0),
 		AutoWindow: true, ConnWindowBoost: 1 << 24, LinkCap: Pick(r, 0, 0, 4096, 100000)}
 	n := 1 + r.Intn(min(mcs, 6))
-	o := ReqOpts{MaxBody: 150000, Variety: r.Intn(4) != 0, Splits: r.Intn(3) != 0, Padding: r.Intn(2) == 0, Trailers: r.Intn(2) == 0,
+	o := ReqOpts{MaxBody: 150000, Variety: r.Intn(4) != 0, Splits: r.Intn(3) != 0, Padding: r.Intn(2) == 0, Trailers: r.Intn(2) == 0, Underscore: true,
 		RespModes: []string{"buffered", "buffered", "stream-declared", "stream-unknown", "stream-zero"}, RespMaxBody: 100000}
 	for i := 0; i < n; i++ {
 		p.Lanes = append(p.Lanes, GenRequestLane(r, i, o))
